@@ -210,6 +210,7 @@ __CPROVER_loop_invariant(targetWeight >= TOTALW ==> ub == ub0)
 __CPROVER_decreases(ub - lb)
 '''},
     backend='ib', witness='g_N == 4 && g_E == 6 && g_no == 0 && g_eo == 0 && g_nw == 0 && g_ew == 1 && g_T == 3 && g_L == 2 && g_EL == 3 && g_ELM1 == 2 && g_k == 0 && g_Ek == 0 && lb == 0 && ub == 4 && targetWeight == 3',
+    small='g_N <= 8 && g_E <= 8 && g_no <= 2 && g_eo <= 4 && g_nw <= 1 && g_ew <= 1 && targetWeight <= 16 && g_T <= 16',
     inst='PrefixSumType = any container whose operator[] satisfies the monotone lookup contract ps_at',
     says='binary search returns the least node index whose prefix weight reaches the target, clamped to [lb, ub] (stated against an arbitrary probe target in both directions); a target above the total weight returns ub; terminates',
     trusted=['abstract lookup contract ps_at (assumed): the prefix sum is monotone; sizes <= 2^40, weights <= 2^20'],
